@@ -922,3 +922,56 @@ Proof.
   intro names. unfold label_names. split; [apply sort_sorted|].
   intro s. rewrite sort_in, filter_In, dedup_in. destruct s; simpl; intuition congruence.
 Qed.
+
+(* ---------- LookupSymbol: the direct-mapped symbol cache over lookup histories ---------- *)
+Definition sc_ok (tbl : Z -> option str) (c : scache) : Prop :=
+  forall slot idx s, sc_get c slot = Some (idx, s) -> tbl idx = Some s.
+
+Lemma sc_ok_nil tbl : sc_ok tbl [].
+Proof. intros slot idx s H. discriminate. Qed.
+
+Lemma sc_ok_store tbl c slot o s : sc_ok tbl c -> tbl o = Some s -> sc_ok tbl ((slot, (o, s)) :: c).
+Proof.
+  intros Hc Ht slot' idx s' H. simpl in H. destruct (slot =? slot')%Z.
+  - inversion H; subst. exact Ht.
+  - eapply Hc; eauto.
+Qed.
+
+Lemma lookup_symbol_ok tbl names c o : sc_ok tbl c ->
+  fst (lookup_symbol tbl names c o) = tbl o /\ sc_ok tbl (snd (lookup_symbol tbl names c o)).
+Proof.
+  intro Hc. unfold lookup_symbol.
+  destruct (existsb (Z.eqb o) names); [split; [reflexivity|exact Hc]|].
+  assert (Hmiss : fst (match tbl o with
+                       | Some s' => (Some s', (Z.rem o sym_cache_size, (o, s')) :: c)
+                       | None => (None, c)
+                       end) = tbl o
+                  /\ sc_ok tbl (snd (match tbl o with
+                       | Some s' => (Some s', (Z.rem o sym_cache_size, (o, s')) :: c)
+                       | None => (None, c)
+                       end))).
+  { destruct (tbl o) as [s'|] eqn:E; simpl; [|split; [reflexivity|exact Hc]].
+    split; [reflexivity|]. apply sc_ok_store; assumption. }
+  destruct (sc_get c (Z.rem o sym_cache_size)) as [[idx [|x s]]|] eqn:Eg; try exact Hmiss.
+  destruct (idx =? o)%Z eqn:Ei; [|exact Hmiss].
+  apply Z.eqb_eq in Ei. subst idx. simpl. split; [|exact Hc]. symmetry. eapply Hc; eauto.
+Qed.
+
+Lemma lookup_history_ok tbl names : forall h c, sc_ok tbl c -> run_lookups tbl names c h = map tbl h.
+Proof.
+  induction h as [|o h IH]; intros c Hc; [reflexivity|].
+  cbn [run_lookups map]. destruct (lookup_symbol_ok tbl names c o Hc) as (H1 & H2).
+  destruct (lookup_symbol tbl names c o) as [a c']. cbn [fst snd] in *. rewrite H1, (IH c' H2). reflexivity.
+Qed.
+
+(* without the index test a colliding reference gets another symbol's string *)
+Lemma lookup_history_noidx_refuted :
+  exists tbl h, run_lookups_noidx tbl [] [] h <> map tbl h.
+Proof.
+  exists (fun o => if (o =? 5)%Z then Some [97%N] else if (o =? 1029)%Z then Some [98%N] else None), [5%Z; 1029%Z].
+  vm_compute. intro H. discriminate H.
+Qed.
+
+(* tie T: the hit test in the source is the one modelled *)
+Lemma lookup_symbol_cond_checked : lookup_symbol_cond_ok = true.
+Proof. reflexivity. Qed.
